@@ -21,19 +21,24 @@ SPEC = {
             "(IsTrustedPeer of 6 peers incl. self after each), and 8 fixed + VERIF_N/4 generated two-peer publications. "
             "non-trivial = every RPC case, every trust case with a non-empty history, every publication; distinct = distinct canonical JSON input",
     "codes": {1: "model_eq_impl (C07: authorize / trust_crdt / validator over the generated tables = what the peer did)",
-              2: "spec_okb (C07: a remote caller got past authorization on an endpoint that is neither open nor (trusted-caller and not local-only); or an update signed by an untrusted peer was merged; or a peer that is neither the component itself nor written in trusted_peers (and no \"*\" is) is trusted after loading the configuration)"},
+              2: "spec_okb (C07: a remote caller got past authorization on an endpoint that is neither open nor (trusted-caller and not local-only); or an update signed by an untrusted peer was merged; or a peer that is neither the component itself nor written in trusted_peers (and no \"*\" is) is trusted after loading the configuration)",
+              10: "open_endpoint_effects (C07: a call an untrusted remote caller was let in with caused, on the called peer, a component call outside the hand-written effect table of that endpoint - e.g. the join handshake Cluster.PeerAdd running the informers (IPFS repo/stat) or publishing metrics)"},
     "trusted": ["tools/gen/policy.go, tools/gen/rpcmethods.go (syntactic; cross-checked at run time: CMethods = reflection on the service objects, CPolicy = cfg.RPCPolicy after Config.Default())",
                 "go-libp2p-gorpc v0.1.3: the authorize function is consulted for every remote call and never for a call through the local server object (observed by the grid, not proved)",
-                "harness/root/rig_c07_test.go fakes: consensus over an in-memory dsstate delegating IsTrustedPeer/Trust/Distrust to the real raft / crdt component; benign IPFS connector and tracker",
+                "harness/root/rig_c07_test.go fakes: consensus over an in-memory dsstate delegating IsTrustedPeer/Trust/Distrust to the real raft / crdt component; benign IPFS connector and tracker; every fake (and the monitor, an informer that asks for repo/stat like informer/disk, and the remote callers' Cluster.ID call-back service) records its calls: an effect that bypasses these component interfaces is not seen",
                 "go-libp2p-pubsub topic validators and message signing (the validator's verdict is what is modelled)"],
-    "level_text": "Theorems (Props/C07.v, 44, all closed): the decision function translated from the authF literal equals the modelled one; the policy table "
+    "level_text": "Theorems (Props/C07.v, 47, all closed): the decision function translated from the authF literal equals the modelled one; the policy table "
                   "regenerated from rpc_policy.go is total on / limited to the method set regenerated from rpc_api.go; for EVERY endpoint name an untrusted caller "
                   "is let in only on the hand-written open_spec; every local_only_spec endpoint is refused to every remote caller under every trust function; "
                   "trust_crdt follows configuration and every Trust/Distrust history; broadcasts signed by an untrusted peer never get through the validator. "
                   "Tied to the code by two translators re-run at every check and by an exhaustive grid of real libp2p RPCs plus real crdt components. "
                   "Monitor theorems (21 of the 44, Proofs/C07_Monitor.v): for every case kind the run-time monitors (codes 1, 2) are sound w.r.t. these "
                   "statements on the observation, the model's own output passes every monitor for every endpoint name, caller, trust configuration, "
-                  "history, configuration file value and message list (no guard), and on any case absence of code 1 implies absence of every code",
+                  "history, configuration file value and message list (no guard), and on any modelled case absence of code 1 implies absence of every code. "
+                  "What the open endpoints DO: the harness records every component call (IPFS, tracker, consensus, informers, monitor, call-back) caused by a call an "
+                  "untrusted remote caller was let in with; a hand-written table (open_effects) lists what each open endpoint may cause; open_endpoints_effects_spec: "
+                  "no allowed effect drives IPFS / the tracker, reads or writes the pinset, writes to consensus other than AddPeer or runs the informers; monitor code 10 "
+                  "(sound and complete w.r.t. the table) rejects anything else",
     "level_note": "finite table obligations are settled by vm_compute on the regenerated tables (bound = the table); gorpc's call path and pubsub's validator "
                   "dispatch are observed, not modelled; transitive propagation through a third peer that trusts the publisher is the code's design and is not excluded",
     "assumptions": ["libp2p authenticates the remote peer id handed to authF (secio/tls/noise handshake)",
